@@ -71,7 +71,19 @@ def run(tier, seed):
 
 
 def replay(path):
+    """re-runs the cell of the replay file under two hash seeds (alone and after all other cells)"""
     j = json.load(open(path))
-    print(json.dumps(j, indent=1)[:3000])
-    print('re-run the quick tier: the whole grid is run every time')
-    return 1
+    cell = j['case']['cell']
+    hs, problems = {}, []
+    for cfg, out in [spawn((0, [cell], False)), spawn((1, [cell], False)), spawn((0, None, False))]:
+        r = out[cell]
+        problems += r['problems']
+        for k, h in r['hashes'].items():
+            hs[f'{cfg[0]}:{"single" if cfg[1] else "all"}:{k}'] = h
+    bad = len(set(hs.values())) != 1 or problems or any(str(v).startswith('ERROR') for v in hs.values())
+    if bad:
+        print('reproduced:', problems or sorted(set(hs.values())))
+        print(f'VIOLATION property={PROP} replay={path}')
+        return 1
+    print('not reproduced')
+    return 0
